@@ -208,7 +208,9 @@ def main():
     with open(stamp, "w") as fh:
         fh.write(want)
     # report
-    os.makedirs(os.path.join(ROOT, "replays"), exist_ok=True)
+    REPLAYS = os.environ.get("VERIF_REPLAY_DIR") or os.path.join(ROOT, "replays")
+    EVIDENCE = os.environ.get("VERIF_EVIDENCE_DIR") or os.path.join(ROOT, "evidence")
+    os.makedirs(REPLAYS, exist_ok=True)
     known = []
     try:
         known = [k for k in json.load(open(os.path.join(ROOT, "known_findings.json"))).get("findings", []) if k.get("property") == "C17"]
@@ -224,7 +226,7 @@ def main():
     replays = []
     for v in unknown[:12]:
         h = hashlib.sha256(json.dumps(v, sort_keys=True).encode()).hexdigest()[:16]
-        path = os.path.join(ROOT, "replays", "C17-%s.json" % h)
+        path = os.path.join(REPLAYS, "C17-%s.json" % h)
         v["property"] = "C17"
         v["how_to_replay"] = "cargo build --offline --no-default-features --features %s  (then evaluate the input shown)" % ",".join(v.get("subset", []))
         json.dump(v, open(path, "w"), indent=1, ensure_ascii=False)
@@ -246,8 +248,8 @@ def main():
                         "export surface is probed for the seven public items and for verif_hooks (must be absent); other accidental exports are not enumerated"],
         "wall_s": time.time() - t0, "violations": len(unknown),
     }
-    os.makedirs(os.path.join(ROOT, "evidence"), exist_ok=True)
-    json.dump(ev, open(os.path.join(ROOT, "evidence", "C17.json"), "w"), indent=1, ensure_ascii=False)
+    os.makedirs(EVIDENCE, exist_ok=True)
+    json.dump(ev, open(os.path.join(EVIDENCE, "C17.json"), "w"), indent=1, ensure_ascii=False)
     return 1 if unknown else 0
 
 
